@@ -6044,6 +6044,16 @@ int32 psX509AuthenticateCert(psPool_t *pool, psX509Cert_t *subjectCert,
                 && sc->sigHashLen > 0
                 && sc->sigHashLen == ic->sigHashLen
                 && memcmpct(sc->sigHash, ic->sigHash, sc->sigHashLen) == 0
+#   if defined(USE_ED25519) || defined(USE_ROT_ECC) || defined(USE_ROT_RSA) || (defined(USE_CL_RSA) && defined(USE_PKCS1_PSS))
+                /* No digest is computed for algorithms that sign the
+                   message itself (Ed25519): sigHash is all zero for every
+                   such certificate, so compare the buffered TBSCertificate. */
+                && (sc->tbsCertStart == NULL) == (ic->tbsCertStart == NULL)
+                && (sc->tbsCertStart == NULL
+                    || (sc->tbsCertLen == ic->tbsCertLen
+                        && memcmpct(sc->tbsCertStart, ic->tbsCertStart,
+                            sc->tbsCertLen) == 0))
+#   endif
                 && memcmpct(sc->subject.hash, ic->subject.hash,
                     SHA1_HASH_SIZE) == 0)
             {
